@@ -105,8 +105,8 @@ func Worker(shard, n int, tier string) *engine.Result {
 	plans := Plans(tier, tmpl, len(base))
 	res.Extra["histories"] = len(plans)
 	res.Extra["templates"] = len(tmpl)
-	vs := variants(tier)
-	deadline := time.Now().Add(25 * time.Minute)
+	vsAll, vsQuick := variants(tier), variants("quick")
+	deadline := time.Now().Add(60 * time.Minute)
 	for i, p := range plans {
 		if i%n != shard {
 			continue
@@ -114,6 +114,11 @@ func Worker(shard, n int, tier string) *engine.Result {
 		if time.Now().After(deadline) {
 			res.CapHit = true
 			break
+		}
+		// triples (thorough only) are replayed on the 7 quick replicas, everything else on all 23
+		vs := vsAll
+		if len(p.Blocks) == 3 && len(p.Dts) == 0 && !strings.HasPrefix(p.Name, "chain:") {
+			vs = vsQuick
 		}
 		desc := planNames(p, tmpl)
 		if engine.SkipScenario(desc) {
@@ -202,7 +207,7 @@ func Run(tier string) int {
 	res.Sample(map[string]any{"history": "{liquidate} {convertERC20} + 2 empty blocks", "variant": "map3+clock+noise+second"})
 	return engine.Finish(res, engine.Meta{
 		Property: Prop, Tier: tier, Level: "model_checking", Start: start, Alphabet: names,
-		Rule: "every history = single template, ordered pair in consecutive blocks, ordered pair in one block (thorough: pairs with a 30-day gap, all triples) over a 21-template alphabet, plus 4 governance flows alone and followed by every template once in effect and 5 life-cycle chains, executed with real InitChain/BeginBlock/DeliverTx/EndBlock/Commit; the recorded concrete blocks are replayed on 7 (thorough 23) independently constructed replicas, each under a forced map-iteration seed combined with a +400d wall clock, interleaved CheckTx/queries (incl. eth_call/estimateGas executing the EVM at the latest and at old heights) and a second application object; every DeliverTx result (code, data, gas, events, log), EndBlock (validator and consensus-param updates, events), BeginBlock events and Commit app hash compared; states = distinct (call, response digest) pairs, non-trivial = history with an executed transaction",
+		Rule: "every history = single template, ordered pair in consecutive blocks, ordered pair in one block (thorough: pairs with a 30-day gap, all triples) over a 21-template alphabet, plus 4 governance flows alone and followed by every template once in effect and 5 life-cycle chains, executed with real InitChain/BeginBlock/DeliverTx/EndBlock/Commit; the recorded concrete blocks are replayed on 7 (thorough 23; triples 7) independently constructed replicas, each under a forced map-iteration seed combined with a +400d wall clock, interleaved CheckTx/queries (incl. eth_call/estimateGas executing the EVM at the latest and at old heights) and a second application object; every DeliverTx result (code, data, gas, events, log), EndBlock (validator and consensus-param updates, events), BeginBlock events and Commit app hash compared; states = distinct (call, response digest) pairs, non-trivial = history with an executed transaction",
 		Assumptions: []string{
 			"one forced random word for all maps at a time: seeds 0..7 (thorough 0..23) realise every start bucket/offset for maps of <= 8 (<= 16) entries",
 			"validator sets of 2; consensus engine not involved (ABCI level)",
